@@ -18,6 +18,7 @@ import (
 	metav1 "k8s.io/apimachinery/pkg/apis/meta/v1"
 
 	"verif/explore"
+	"verif/harness/c03"
 	"verif/harness/hx"
 	"verif/runner"
 	"verif/vs"
@@ -741,6 +742,10 @@ func Property(id string) runner.Property {
 						},
 					},
 				})
+			}
+			if id == "C02" {
+				// public path: the controller and its publishers distribute exactly those events (deviation-bounded)
+				out = append(out, c03.C02Controller(tier)...)
 			}
 			return out
 		},
